@@ -169,9 +169,12 @@ def with_mode(queries, mode):
   return out
 
 
-def run_impl_case(d, queries):
-  """Returns (readback description, answers) or raises."""
-  im = G.Impl(d)
+def run_impl_case(d, queries, mode="shared"):
+  """Returns (readback description, answers) or raises.  mode "staged": the graph is built with the first queries
+  asked after every AddOrigin (see G.Impl); the answers to `queries` afterwards must be those of a solver that
+  has seen nothing (the last mutation invalidates), i.e. the model's answers from an empty memo."""
+  probes = [q for q in queries if q[0] != "R"][:3] if mode == "staged" else None
+  im = G.Impl(d, probes)
   try:
     ans = im.run(queries)
   except RuntimeError:
@@ -195,7 +198,7 @@ def eval_chunk(args):
   for name, d, queries, mode in cases:
     qs = with_mode(queries, mode)
     try:
-      desc, ans = run_impl_case(d, qs)
+      desc, ans = run_impl_case(d, qs, mode)
     except Exception as e:  # pylint: disable=broad-except
       summ["construct_bad"].append((name, repr(e)))
       continue
@@ -396,7 +399,7 @@ def random_cases(r, tier_scale):
       style = "wild" if i % 5 == 4 else "program"
       d = G.random_graph(r, nn, nv, nb, cyclic=(i % 3 == 0), p_cond=(0.25 if i % 2 else 0.0), style=style)
       qs = G.random_queries(r, d, nsets)
-      cases.append(("%s%d" % (prefix, i), d, qs, "fresh" if i % 4 == 3 else "shared"))
+      cases.append(("%s%d" % (prefix, i), d, qs, "fresh" if i % 4 == 3 else "staged" if i % 4 == 1 else "shared"))
   add("small", 4000 * tier_scale, 7, 3, 8, 6)
   add("mid", 1400 * tier_scale, 18, 6, 20, 8)
   add("big", 500 * tier_scale, 40, 12, 40, 10)
@@ -405,7 +408,7 @@ def random_cases(r, tier_scale):
     cases.append(("loop%d" % i, d, qs, "fresh" if i % 3 == 2 else "shared"))
   for i in range(500 * tier_scale):
     d, qs = braid_case(r)
-    cases.append(("braid%d" % i, d, qs, "fresh" if i % 3 == 2 else "shared"))
+    cases.append(("braid%d" % i, d, qs, "fresh" if i % 3 == 2 else "staged" if i % 3 == 1 else "shared"))
   for i in range(400 * tier_scale):
     d, qs = blocker_braid_case(r)
     cases.append(("bbraid%d" % i, d, qs, "fresh" if i % 2 else "shared"))
@@ -572,7 +575,7 @@ def exhaustive_worker(args):
 
 def _still(fp, d, queries, mode):
   try:
-    desc, ans = run_impl_case(d, queries)
+    desc, ans = run_impl_case(d, queries, mode)
   except Exception:  # pylint: disable=broad-except
     return None
   mo = model_answers(desc, queries) if fp.endswith(NOT_MODELLED) else None
@@ -779,7 +782,10 @@ def run(res):
       d2, q2 = shrink(fp, rep["desc"], rep["queries"], rep["mode"])
       st = _still(fp, d2, q2, rep["mode"])
       if st is not None:
-        rep = {"desc": st[0], "queries": q2, "mode": rep["mode"], "detail": st[1], "case": rep["case"]}
+        # staged construction adds the source sets in the order the description lists them: keep the description
+        # that was built (the read-back lists them in raw-pointer order)
+        rep = {"desc": d2 if rep["mode"] == "staged" else st[0], "queries": q2, "mode": rep["mode"],
+               "detail": st[1], "case": rep["case"]}
     except Exception:  # pylint: disable=broad-except
       pass
     res.violation(fp, what, rep)
@@ -814,7 +820,7 @@ def replay(res, path):
     print("model  : <unavailable: %r>" % e)
   keep = []
   for attempt in range(12):
-    desc, ans = run_impl_case(d, qs)
+    desc, ans = run_impl_case(d, qs, mode)
     mo = model_answers(desc, qs)
     v = classify(desc, qs, ans, mo, mode)
     hit = any(f == fp for f, _, _ in v) or (fp in (None, "obligation") and bool(v))
